@@ -92,7 +92,9 @@ func runReal(stream []byte, thr int, sb bool) (o observed) {
 			}
 			return
 		}
-		o.payloads = append(o.payloads, append([]byte{}, ctx.Payload...))
+		// keep the slice the decoder returned (no copy): the payloads of a stream are compared only after the whole
+		// stream has been decoded, so a payload that a later Decode overwrites (buffer reuse) shows up as wrong
+		o.payloads = append(o.payloads, ctx.Payload)
 	}
 	return
 }
@@ -267,9 +269,9 @@ func main() {
 	out.Rule = "streams of 1..4 frames for threshold in {-1,0,1,64,256,1024,2^20} and both directions; one frame is mutated: length or claimed-size VarInt replaced by " +
 		"-1, 0, t-1, t, t+1, cap, cap+1, 2^21-1, 2^21, 2^31-1, real+-1 or re-encoded non-minimally (2..5 bytes); zlib body truncated, extended with trailing bytes, " +
 		"bit-flipped, Adler-32 corrupted, re-claimed larger/smaller (incl. multiples of 32768 where compress/flate flushes before the trailer); runs of 1..13 empty frames; " +
-		"strict prefixes; uncompressed bodies of t-1, t, t+1 bytes; bodies inflating to cap, cap+1 constant bytes (written as `rep 1 n`); payloads without a packet id; random bytes. " +
+		"streams of 2..6 valid compressed frames with equal / decreasing / increasing / mixed sizes (small, up to 64 KiB, above 64 KiB); strict prefixes; uncompressed bodies of t-1, t, t+1 bytes; bodies inflating to cap, cap+1 constant bytes (written as `rep 1 n`); payloads without a packet id; random bytes. " +
 		"distinct = distinct case term; non-trivial = not the random-bytes class, or the real decoder returned at least one payload. " +
-		"Every stream is decoded by the real decoder until the first failing Decode; heap growth per Decode (runtime.MemStats.TotalAlloc) is recorded as supporting evidence."
+		"Every stream is decoded by the real decoder until the first failing Decode; the payload slices the decoder returned are kept WITHOUT copying and emitted only after the whole stream was decoded; heap growth per Decode (runtime.MemStats.TotalAlloc) is recorded as supporting evidence."
 
 	var worstAlloc uint64
 	emit := func(idx int, thr int, sb bool, stream []byte, kind string, tags ...string) {
@@ -359,8 +361,55 @@ func main() {
 		emit(i, thr, sb, stream, kind)
 	}
 
-	// fixed classes that must be present in every run
+	// streams of 2..6 valid compressed frames on one Decoder: equal, decreasing, increasing and mixed sizes, small
+	// (random content), up to 64 KiB and some above (constant content, a different byte per frame). All payloads
+	// are held until the stream is done, so a decoder that hands out memory it later reuses is caught.
 	idx := n
+	nm := f.Count(24)
+	for i := 0; i < nm; i++ {
+		cr := rng.Fork()
+		thr := cr.Pick(0, 1, 64, 256)
+		sb := cr.Bool()
+		k := cr.Range(2, 6)
+		pattern := []string{"equal", "decreasing", "increasing", "mixed"}[i%4]
+		scale := []string{"small", "upto64k", "around64k"}[(i/4)%3]
+		sizes := make([]int, k)
+		base := 0
+		switch scale {
+		case "small":
+			base = cr.Range(max(thr, 40), 700)
+		case "upto64k":
+			base = cr.Pick(4097, 20000, 32768, 65535, 65536, cr.Range(4097, 65536))
+		default:
+			base = cr.Pick(65536, 65537, 70000, 131072)
+		}
+		for j := range sizes {
+			switch pattern {
+			case "equal":
+				sizes[j] = base
+			case "decreasing":
+				sizes[j] = max(max(thr, 2), base-j*base/(k+1))
+			case "increasing":
+				sizes[j] = max(max(thr, 2), base-(k-1-j)*base/(k+1))
+			default:
+				sizes[j] = max(max(thr, 2), cr.Range(base/4+1, base+base/8))
+			}
+		}
+		var stream []byte
+		for j, sz := range sizes {
+			var p []byte
+			if scale == "small" {
+				p = payload(sz, cr)
+			} else {
+				p = bytes.Repeat([]byte{byte(0x41 + j)}, sz) // starts with packet id 0x41+j
+			}
+			stream = append(stream, fr{hasClaimed: true, claimed: len(p), body: zl(p, cr.Range(-1, 9))}.bytes()...)
+		}
+		emit(idx, thr, sb, stream, "multi-compressed-"+pattern, "multi-compressed", "sizes="+scale)
+		idx++
+	}
+
+	// fixed classes that must be present in every run
 	for _, sb := range []bool{true, false} {
 		for _, thr := range []int{0, 64, 256} {
 			cr := rng.Fork()
